@@ -4,13 +4,14 @@ import collections
 import analyses as A
 
 
+FOREIGN = ('std::', 'core::', 'alloc::', 'parking_lot::', 'lock_api::', 'tokio::', 'dashmap::', 'arc_swap::', 'once_cell::')
 WORKSPACE = ('tensor_', 'relational_engine', 'graph_engine', 'vector_engine', 'query_router', 'neumann_')
 
 
 def lock_id(g):
     """The workspace struct field holding the lock (skipping Option.0, Arc, …)."""
     for x in reversed(g.lock_fields):
-        if '.' in x and x.startswith(WORKSPACE):
+        if '.' in x and not x.startswith(FOREIGN):
             return x
     return None
 
